@@ -339,9 +339,15 @@ func c11Run(c *core.Ctx) {
 			for _, t := range q.Tables {
 				cont = append(cont, fmt.Sprintf("%s=%v", t, w.tabs[t].Rows))
 			}
+			keys := map[string][]int{}
+			for _, t := range q.Tables {
+				for _, r := range w.tabs[t].Rows {
+					keys[t] = append(keys[t], int(r[0].(int32)))
+				}
+			}
 			res.Violate(&core.Violation{Property: "C11", Signature: "join/" + clause,
 				Detail: fmt.Sprintf("%s\n  tables: %s; statistics: %s\n  plan  : %s\n  %s", sql, strings.Join(cont, " "), st.Name, strs[i], detail),
-				Replay: map[string]any{"sql": sql, "tables": cont, "statistics": st.Name, "plan_choices": pf}})
+				Replay: map[string]any{"sql": sql, "table_keys": keys, "tables": q.Tables, "statistics": st.Name, "plan_choices": pf.String(), "plan": strs[i]}})
 			if r.Fail != nil {
 				return
 			}
@@ -440,8 +446,63 @@ func init() {
 			"every cost-minimal plan under the statistics state is executed (hook H3); NULL join keys are not reachable through SQL",
 		},
 		Run: c11Run,
-		Replay: func(raw json.RawMessage) (string, bool) {
-			return "C11 replays are statements with their table contents (see the detail text); re-run the check: " + string(raw), false
-		},
+		Replay: c11Replay,
 	})
+}
+
+var c11AllStats = []c11Stats{
+	{Name: "never-updated"},
+	{Name: "current", Cur: true},
+	{Name: "stale-from-larger", Prep: map[string][]int{"l": {1, 1, 1, 2, 2, 3}, "r": {1}, "m": {1, 2}}},
+	{Name: "stale-lopsided", Prep: map[string][]int{"l": {1}, "r": {1, 1, 1, 2, 2, 3, 3}, "m": {}}},
+}
+
+// c11Replay rebuilds the tables and statistics state, finds the query by its SQL text and executes it under
+// the recorded plan choices (and, for comparison, under every other reachable plan).
+func c11Replay(raw json.RawMessage) (string, bool) {
+	var rp struct {
+		SQL     string           `json:"sql"`
+		Keys    map[string][]int `json:"table_keys"`
+		Tables  []string         `json:"tables"`
+		Stats   string           `json:"statistics"`
+		Choices string           `json:"plan_choices"`
+	}
+	json.Unmarshal(raw, &rp)
+	var st c11Stats
+	for _, s := range c11AllStats {
+		if s.Name == rp.Stats {
+			st = s
+		}
+	}
+	for _, q := range c11Queries(rp.Tables, true) {
+		if q.SQL() != rp.SQL {
+			continue
+		}
+		for _, t := range rp.Tables {
+			if rp.Keys[t] == nil {
+				rp.Keys[t] = []int{}
+			}
+		}
+		w := c11Open(rp.Tables, rp.Keys, st)
+		defer w.Close()
+		want := q.eval(w.tabs)
+		var sb strings.Builder
+		fmt.Fprintf(&sb, "%s\ntables %v statistics %s\nnaive evaluation: %s\n", rp.SQL, rp.Keys, rp.Stats, want.Short())
+		bad := false
+		pfs, strs, _ := w.db.PlanVariants(rp.SQL)
+		pfs = append([]PlanChoices{ParsePlanChoices(rp.Choices)}, pfs...)
+		strs = append([]string{"(recorded plan choices)"}, strs...)
+		for i, pf := range pfs {
+			SetPlanChoices(pf)
+			r := w.db.Auto(rp.SQL)
+			SetPlanChoices(nil)
+			ok := r.Fail == nil && r.Rows.Canon() == want.Canon()
+			fmt.Fprintf(&sb, "  %-5v %s -> %s %v\n", ok, strs[i], r.Rows.Short(), r.Fail)
+			if !ok {
+				bad = true
+			}
+		}
+		return sb.String(), bad
+	}
+	return "query not found among the enumerated ones: " + rp.SQL, false
 }
